@@ -33,7 +33,7 @@ _NAMING = {"scheme": "V", "perm": None, "inv": None}
 
 
 def set_naming(scheme: str, seed: int = 0) -> None:
-    if scheme not in ("V", "latent-like", "permuted"):
+    if scheme not in ("V", "latent-like", "permuted", "indexed"):
         raise ValueError(scheme)
     _NAMING["scheme"] = scheme
     if scheme == "permuted":
@@ -47,6 +47,9 @@ def set_naming(scheme: str, seed: int = 0) -> None:
 def _name(i: int) -> str:
     if _NAMING["scheme"] == "latent-like":
         return f"u_{i - 1}"
+    if _NAMING["scheme"] == "indexed":   # A_1, B_2, C_3, D4, E_5, ...: the parser's indexed single-letter names
+        letter = chr(64 + i)
+        return f"{letter}{i}" if i % 4 == 0 else f"{letter}_{i}"
     if _NAMING["scheme"] == "permuted" and i in _NAMING["perm"]:
         return f"{PREFIX}{_NAMING['perm'][i]}"
     return f"{PREFIX}{i}"
@@ -62,6 +65,11 @@ def num(v: Any) -> int:
         if not name.startswith("u_") or not name[2:].isdigit():
             raise KeyError(name)
         return int(name[2:]) + 1
+    if _NAMING["scheme"] == "indexed":
+        i = ord(name[0]) - 64
+        if not 1 <= i <= 26 or name != _name(i):
+            raise KeyError(name)
+        return i
     if not name.startswith(PREFIX) or not name[len(PREFIX) :].isdigit():
         raise KeyError(name)
     k = int(name[len(PREFIX) :])
